@@ -81,6 +81,7 @@ class Hook:
         self.fired = False
         self._saved = {}
         self.ops = ops          # restrict numbering to these op names (None = all)
+        self._busy = False      # re-entrancy guard (os.path.realpath calls os.lstat)
 
     # -- helpers
     def _watched(self, path):
@@ -94,8 +95,12 @@ class Hook:
         for r in self.roots:
             if ap == r or ap.startswith(r + os.sep):
                 return ap
-        # resolve symlinks of the parent (tmp dirs) only when cheap
-        rp = os.path.realpath(os.path.dirname(ap))
+        # resolve symlinks of the parent (tmp dirs)
+        self._busy = True
+        try:
+            rp = os.path.realpath(os.path.dirname(ap))
+        finally:
+            self._busy = False
         for r in self.roots:
             if rp == r or rp.startswith(r + os.sep):
                 return ap
@@ -131,6 +136,8 @@ class Hook:
 
     def _path_fn(self, name, orig, npaths=1):
         def patched(*a, **kw):
+            if self._busy:
+                return orig(*a, **kw)
             ps = [self._watched(x) for x in a[:npaths] if not isinstance(x, int)]
             p = next((x for x in ps if x), None)
             if p is None:
